@@ -46,6 +46,9 @@ def r19_1(ctx):
         for n in (range(0, MAX + 4) if ver in (4, 8) else (0,)):
             for c in ((0, 1, PERIOD - 2, PERIOD - 1, PERIOD, 2 * PERIOD - 1) if ver == 8 else (0, PERIOD - 1)):
                 px = PX(repo, models=models, inline=same_class())
+                # a time limit the feed puts around its own commands is modelled as asyncio does it (CancelledError inside, TimeoutError
+                # where the block is left): a keep-alive cut short by it is a keep-alive that failed by time-out
+                px.precise_timeouts = True
 
                 def setup():
                     ez = Obj(TypeRef("EZSP"), {"ezsp_version": ver}, tag="self._ezsp")
